@@ -317,6 +317,7 @@ def run(scenario, make_agents=None):
                   RecRhythm(rhythm, sim), user_name=bot_cfg.get("user_name"),
                   server_instance_id=bot_cfg.get("server_id"))
         sim.bot = bot
+        sim.rhythm = rhythm
         try:
             with tower:
                 tower.wait_loaded()
@@ -364,4 +365,5 @@ def impl_reply(res):
     obs = [o for o in sim.obs if o[1][0] not in ("connect", "other")]
     return {"obs": obs, "crashed": res["crashed"], "handler_crashes": sim.handler_crashes,
             "exited": res["exited"], "rejects": sim.rejects, "shape_errors": sim.shape_errors,
-            "connect": sim.connect_urls, "tape_len": len(sim.tape)}
+            "connect": sim.connect_urls, "tape_len": len(sim.tape),
+            "delay": f2b(float(getattr(getattr(sim, "rhythm", None), "delay", 0.0)))}
